@@ -64,7 +64,7 @@ class Server:
         self.proc = subprocess.Popen(argv, cwd=root, env=e, stdout=self.out, stderr=self.err, stdin=subprocess.DEVNULL, preexec_fn=pre)
         self.started = self._wait_ready()
 
-    def _wait_ready(self, timeout=15.0):
+    def _wait_ready(self, timeout=45.0):
         t0 = time.time()
         while time.time() - t0 < timeout:
             if self.proc.poll() is not None:
